@@ -60,6 +60,9 @@ func runC08(c *Ctx) {
 	c.shared(func() { c19Equals(c, mappingInfos(c, "C08")) }, func(o *Obligation) bool { return true })
 	// "no input makes a decoder panic; running out of input is io.EOF": every byte read of the primitive decoders is guarded
 	c.shared(func() { c18Decoders(c) }, func(o *Obligation) bool { return true })
+	// the exact variant's decoder: each statistics arm folds only after its primitive decoded; the final
+	// "bins without statistics" refusal is exactly count == 0 && !empty (a cut between blocks stays a success)
+	c.shared(func() { c10Decode(c, a) }, func(o *Obligation) bool { return true })
 }
 
 // moduleErrCallee: the callee (static or interface method) is declared in the module and returns an error.
